@@ -89,6 +89,9 @@ class Spec:
     exclude_c01 = ()         # queries that change primary state (C06 reports them), not used in C01
     extra_queries = ()       # additional (dotted) queries
     patterns = {}
+    harness = None           # "C06": built by the C06 harness only (None: both C01 and C06)
+    focus = ()               # C06: substrings of query labels; all ordered pairs among the matching
+    #                          queries are run as cold pairs (on top of the seeded sample)
 
     def __init__(self, seed=0):
         self.seed = seed
@@ -362,6 +365,8 @@ class VisibilitySpec(NetFamily):
     ctor_takes_adjacency = False
     ctor_takes_weights = False
 
+    vg_kw = {}
+
     def _ts(self):
         return np.array([0.3, 1.2, 0.1, 0.9, 1.5, 0.2, 0.8, 0.4])
 
@@ -369,14 +374,131 @@ class VisibilitySpec(NetFamily):
         from pyunicorn.timeseries import VisibilityGraph
         ts = self._ts()
         inputs = self.ready(time_series=ts)
-        obj = VisibilityGraph(ts, silence_level=SL)
+        obj = VisibilityGraph(ts, silence_level=SL, **self.vg_kw)
         return Run(self, obj, inputs,
                    {"A": np.asarray(obj.adjacency).copy(), "A_over": False, "w": None, "la_w": None})
 
     def twin(self, run):
         from pyunicorn.timeseries import VisibilityGraph
-        t = VisibilityGraph(self._ts(), silence_level=SL)
+        t = VisibilityGraph(self._ts(), silence_level=SL, **self.vg_kw)
         return self.finish_twin(t, run.model)
+
+
+def _nan_series(n, seed, missing):
+    """float32-exact series with NaN samples at the positions `missing` (an isolated one, two
+    adjacent ones) and with ties between some of the present samples"""
+    rng = np.random.RandomState(90 + seed)
+    x = np.round(rng.uniform(0.0, 2.0, n) * 4) / 4.0
+    x[list(missing)] = np.nan
+    return x
+
+
+class VisibilityMissingSpec(VisibilitySpec):
+    """natural visibility graph of a series with missing samples (missing_values=True)"""
+    name = "VisibilityGraph/missing-values"
+    harness = "C06"
+    N = 12
+    vg_kw = {"missing_values": True}
+    focus = ("visibility",)
+
+    def _ts(self):
+        return _nan_series(self.N, self.seed, (3, 7, 8))
+
+
+class VisibilityHorizontalMissingSpec(VisibilityMissingSpec):
+    name = "VisibilityGraph/horizontal-missing-values"
+    vg_kw = {"missing_values": True, "horizontal": True}
+
+
+# --------------------------------------------------------------------------- zero link weights
+
+def _zero_tie_weights(rng, A, directed, force):
+    """link attribute with many ties (values from {1, 2, 3, 4}) and weight 0 on the existing
+    links listed in `force`"""
+    n = A.shape[0]
+    W = rng.choice([1.0, 1.0, 2.0, 2.0, 3.0, 4.0], size=(n, n))
+    if not directed:
+        W = np.triu(W, 1) + np.triu(W, 1).T
+    for i, j in force:
+        W[i, j] = 0.0
+        if not directed:
+            W[j, i] = 0.0
+    np.fill_diagonal(W, 0.0)
+    return W
+
+
+class ZeroWeightNetworkSpec(NetworkSpec):
+    """Network whose link attribute 'w' has weight 0 on existing links (weighted path length 0
+    between different nodes) and ties"""
+    name = "Network/zero-weights"
+    harness = "C06"
+    focus = ("'w'",)
+
+    def setup_more(self):
+        A, _ = _small_A(self.directed)
+        links = np.argwhere(A > 0)
+        k = self.rng.randint(len(links))
+        force = [tuple(links[k]), tuple(links[(k + 3) % len(links)])]
+        self.W_pool = [_zero_tie_weights(self.rng, A, self.directed, force) for _ in range(4)]
+
+
+class ZeroWeightDirectedSpec(ZeroWeightNetworkSpec):
+    name = "Network/directed-zero-weights"
+    directed = True
+
+
+class ZeroWeightInteractingSpec(ZeroWeightNetworkSpec):
+    name = "InteractingNetworks/zero-weights"
+
+    def cls(self):
+        from pyunicorn.core import InteractingNetworks
+        return InteractingNetworks
+
+
+def _coinciding_grid():
+    """6 grid points: two at the north pole (different longitudes) and two coinciding ones -
+    the angular distance between the members of each pair is exactly 0"""
+    from pyunicorn.core import GeoGrid
+    lat = np.array([90.0, 90.0, 20.0, 20.0, -35.0, 55.0])
+    lon = np.array([0.0, 180.0, 60.0, 60.0, -100.0, 120.0])
+    return GeoGrid(np.arange(4.0), lat, lon, silence_level=SL)
+
+
+class GeoCoincidingSpec(GeoSpec):
+    """GeoNetwork with links between grid points at angular distance 0: the lazily installed
+    'distance' link attribute and the explicit attribute 'w' (= the angular distance matrix)
+    are 0 on existing links"""
+    name = "GeoNetwork/coinciding-nodes"
+    harness = "C06"
+    focus = ("'w'", "distance_weighted")
+
+    def _A(self):
+        A = np.zeros((6, 6), dtype=np.int8)
+        for i, j in [(0, 1), (2, 3), (0, 2), (1, 3), (2, 4), (3, 5), (4, 5), (1, 5)]:
+            A[i, j] = A[j, i] = 1
+        return A
+
+    def setup_more(self):
+        D = np.asarray(_coinciding_grid().angular_distance(), dtype=float)
+        D = (D + D.T) / 2.0
+        np.fill_diagonal(D, 0.0)
+        self.W_pool = [D.copy(), np.round(D, 1), np.floor(D * 2.0), D * 2.0]
+
+    def start(self):
+        from pyunicorn.core import GeoNetwork
+        A = self._A()
+        grid = _coinciding_grid()
+        inputs = self.ready(adjacency=A, grid=grid)
+        obj = GeoNetwork(grid=grid, adjacency=A, directed=False, node_weight_type="surface",
+                         silence_level=SL)
+        return Run(self, obj, inputs, {"A": A.copy(), "w": None, "la_w": None, "nwt": "surface"})
+
+    def twin(self, run):
+        from pyunicorn.core import GeoNetwork
+        m = run.model
+        t = GeoNetwork(grid=_coinciding_grid(), adjacency=m["A"].copy(), directed=False,
+                       node_weight_type=m["nwt"], silence_level=SL)
+        return self.finish_twin(t, m)
 
 
 class ResSpec(NetFamily):
@@ -1111,6 +1233,37 @@ class RNSpec(RPSpec, NetFamily):
         return {"w": W}
 
 
+class RNMissingSpec(RNSpec):
+    """RecurrenceNetwork of a series with NaN samples, missing_values=True (C06 only: the known
+    order mismatch between R and the reduced network, C07, is not a subject here)"""
+    name = "RecurrenceNetwork/missing-values"
+    harness = "C06"
+    extra_kw = {"missing_values": True}
+    kinds = ("thr", "rr", "lrr")
+
+    def setup_more(self):
+        if not hasattr(self, "ts"):
+            return                    # first call, from NetFamily.setup: the series comes later
+        self.ts[[4, 9, 10]] = np.nan
+        for E in self.E_pool:
+            E[[4, 9, 10], 0] = np.nan
+
+
+class RPMissingEmbeddedSpec(RPSpec):
+    """delay-embedded RecurrencePlot of a series with NaN samples (a missing sample makes
+    `dim` state vectors missing)"""
+    name = "RecurrencePlot/missing-values-embedded"
+    harness = "C06"
+    metric = "euclidean"
+    extra_kw = {"missing_values": True, "dim": 2, "tau": 2}
+    kinds = ("thr", "rr", "lrr")
+
+    def setup_more(self):
+        self.ts[[3, 8]] = np.nan
+        n = self.n - 2
+        self.E_pool = [np.c_[_series(n, 50 + i), _series(n, 60 + i)] for i in range(4)]
+
+
 class CRPSpec(Spec):
     name = "CrossRecurrencePlot"
     exclude = RPSpec.exclude
@@ -1400,23 +1553,28 @@ class EventSeriesSpec(Spec):
 ALL_SPECS = [
     NetworkSpec, DirectedNetworkSpec, DisconnectedNetworkSpec, InteractingSpec, InteractingDisconnectedSpec,
     InteractingDirectedSpec, SpatialSpec, GeoSpec,
-    ResSpec, VisibilitySpec,
+    ResSpec, VisibilitySpec, VisibilityMissingSpec, VisibilityHorizontalMissingSpec,
+    ZeroWeightNetworkSpec, ZeroWeightDirectedSpec, ZeroWeightInteractingSpec, GeoCoincidingSpec,
     ClimateSpec, TsonisSpec, SpearmanSpec, PartialSpec, MutualInfoSpec, HavlinSpec, HilbertSpec,
     HilbertDirectedSpec, RainfallSpec, CoupledTsonisSpec, ESClimateSpec,
     ClimateDataSpec, DataSpec, GridSpec, GeoGridSpec,
-    RPSpec, RPEuclidSpec, RPMissingSpec, RPSparseSpec, CRPSpec, JRPSpec, JRPLagSpec, RNSpec, JRNSpec, ISRNSpec,
+    RPSpec, RPEuclidSpec, RPMissingSpec, RPMissingEmbeddedSpec, RPSparseSpec, CRPSpec, JRPSpec, JRPLagSpec,
+    RNSpec, RNMissingSpec, JRNSpec, ISRNSpec,
     SurrogatesSpec, EventSeriesSpec,
 ]
 
 
-def specs_for(tier, seed):
-    """specs of a tier; the environment variable VERIF_SPECS (comma separated spec names or
-    prefixes) restricts the list - a development aid, never set by the driver"""
+def specs_for(tier, seed, harness=None):
+    """specs of a tier (for one harness: specs marked for another harness are left out); the
+    environment variable VERIF_SPECS (comma separated spec names or prefixes) restricts the
+    list - a development aid, never set by the driver"""
     import os
     only = [x for x in os.environ.get("VERIF_SPECS", "").split(",") if x]
     out = []
     for c in ALL_SPECS:
         if c.tier == "thorough" and tier != "thorough":
+            continue
+        if harness is not None and c.harness is not None and c.harness != harness:
             continue
         if only and not any(c.name == o or c.name.startswith(o) for o in only):
             continue
